@@ -13,6 +13,7 @@ import (
 	_ "go.nanomsg.org/mangos/v3/transport/ws"
 	_ "go.nanomsg.org/mangos/v3/transport/wss"
 	"go.nanomsg.org/mangos/v3/vh/c11"
+	"go.nanomsg.org/mangos/v3/vh/c13"
 	"go.nanomsg.org/mangos/v3/vh/kinds"
 	"go.nanomsg.org/mangos/v3/vh/kit"
 	"go.nanomsg.org/mangos/v3/vh/vnet"
@@ -34,6 +35,9 @@ func init() {
 			// (unknown options, a second Listen / Dial, calls on closed objects): whatever order the
 			// locks are taken in, every call returns and the socket stays usable
 			{Name: "two-calls-at-once-on-endpoints-and-socket", Mode: "sched", Bound: depth, Reset: kit.ResetGlobals, Body: c11.TwoThreadsEndpoints},
+			// dials waiting for several busy inproc listeners: whichever accept loop becomes free, the dial
+			// waiting for it completes (no call blocks for ever, the listeners keep accepting)
+			{Name: "inproc-dials-waiting-for-several-busy-listeners", Mode: "enum", Reset: kit.ResetGlobals, Body: c13.InprocBusyListeners, NeedCounters: []string{"waiting-dial-connected-when-its-listener-became-free"}},
 			{Name: "transport-config-errors", Mode: "hist", Reset: kit.ResetGlobals, Body: transportErrors,
 				NeedCounters: []string{"tls-no-config", "followup-completed"}},
 		}
